@@ -55,6 +55,12 @@ def check_text(ctx, fmt, basis, header, label):
         ctx.violation('writers.write_formatted_basis_str', 'payload', 'with a header the %s payload is not the bare payload' % fmt, replay)
         return bare[1], headed[1]
     H = headed[1][len(pre):len(headed[1]) - len(body)]
+    if H and not H.endswith('\n'):
+        # the last header line runs into the first payload line: that payload line is now part of a comment
+        ctx.violation('writers.write_formatted_basis_str', 'payload-line-in-header',
+                      'the header of the %s output does not end at a line end: the first payload line %r is appended to a comment line'
+                      % (fmt, body.split('\n', 1)[0][:40]), replay)
+        return bare[1], headed[1]
     for line in H.splitlines():
         if line.strip() and not line.startswith(comment):
             ctx.violation('writers.write_formatted_basis_str', 'uncommented-line',
